@@ -425,4 +425,42 @@ theorem cross_site_refused_raw (verify : Str → Str → Bool) :
 example : sfsOfHeader (some [83, 97, 109, 101, 45, 79, 114, 105, 103, 105, 110]) = .other := by decide     -- "Same-Origin"
 example : sfsOfHeader (some [110, 111, 110, 101]) = .none ∧ sfsOfHeader none = .absent := by decide
 
+/-! ## audit round 6 (cross-audit): non-vacuity witnesses on concrete routes, requests and histories -/
+
+/-- `no_credential_is_403` / `cross_site_refused` / `state_changing_requires_xsrf` on a real row of the table: a POST to `/`
+    with a wrong Bearer value is answered 403; with a valid cookie but marked cross-site, or without XSRF token, it is refused -/
+example : ∃ r ∈ webRoutes, r.appRoute = true ∧ Method.POST ∈ r.methods ∧
+    serve r ⟨.POST, false, .invalid, .absent, .sameOrigin, true⟩ = .s403auth ∧
+    serve r ⟨.POST, true, .absent, .absent, .other, true⟩ = .crossSite ∧
+    serve r ⟨.POST, true, .absent, .absent, .sameOrigin, false⟩ = .s403xsrf ∧
+    serve r ⟨.POST, true, .absent, .absent, .sameOrigin, true⟩ = .run false := by decide +kernel
+
+/-- the WebSocket row: no credential -> 403, token -> handler with a fresh cookie -/
+example : ∃ r ∈ webRoutes, r.isWs = true ∧
+    serve r ⟨.GET, false, .absent, .absent, .absent, false⟩ = .s403auth ∧
+    serve r ⟨.GET, false, .absent, .valid, .absent, false⟩ = .run true := by decide +kernel
+
+/-- `issued_cookie_provenance` / `hist_no_credential_no_handler` / `rotation_revokes_old_password` on a concrete history:
+    password "p"; a request with `?token=p` obtains cookie 7; the password is rotated to "q"; the cookie still opens the
+    handler (its provenance is the first request), the old token does not, the new one does -/
+example : ∃ r ∈ webRoutes, r.appRoute = true ∧
+    let v : Str → Str → Bool := fun _ _ => false
+    let w := runW v (fun _ => true) ⟨[112], []⟩
+      [.req r ⟨.GET, none, none, .text [112], .absent, false⟩ 7, .setPw [113] [102]]
+    w.issued = [7] ∧ w.password = [113] ∧
+    serveC v r w.password (w.cookieOk ⟨.GET, some 7, none, .absent, .absent, false⟩) ⟨.GET, some 7, none, .absent, .absent, false⟩ = .run false ∧
+    serveC v r w.password (w.cookieOk ⟨.GET, none, none, .text [112], .absent, false⟩) ⟨.GET, none, none, .text [112], .absent, false⟩ = .s403auth ∧
+    serveC v r w.password (w.cookieOk ⟨.GET, none, none, .text [113], .absent, false⟩) ⟨.GET, none, none, .text [113], .absent, false⟩ = .run true := by
+  decide +kernel
+
+/-- `hist_uncredentialed_is_inert`'s hypothesis holds for a non-trivial history (a rotation and two refused requests), and a
+    handler that WOULD change the state and disclose data is never reached -/
+example : ∃ r ∈ webRoutes, r.appRoute = true ∧
+    let v : Str → Str → Bool := fun _ _ => false
+    let evs : List Ev := [.req r ⟨.GET, none, some [66, 101, 97, 114, 101, 114, 32, 120], .absent, .absent, false⟩ 1,
+                          .setPw [113] [102], .req r ⟨.GET, some 9, none, .text [112], .absent, false⟩ 2]
+    Ev.uncredentialed v ⟨[112], []⟩ (.req r ⟨.GET, none, some [66, 101, 97, 114, 101, 114, 32, 120], .absent, .absent, false⟩ 1) = true ∧
+    (runApp (S := Nat) (B := Nat) (fun _ _ s => (s + 1, 42)) v (fun _ => true) ⟨⟨[112], []⟩, 0⟩ evs).1.app = 0 ∧
+    (runApp (S := Nat) (B := Nat) (fun _ _ s => (s + 1, 42)) v (fun _ => true) ⟨⟨[112], []⟩, 0⟩ evs).2.all (fun x => x.2.isRefusal) = true := by
+  decide +kernel
 end MitmVerif.Props.C46
